@@ -63,7 +63,7 @@ func checkConv(id, typ, tier, replay string) int {
 	rep.Rule = fmt.Sprintf("%d seeded pairs for %s: %s. The script printed by the real drc is executed request by request / command by command on the device model; "+
 		"the resulting state must be equivalent to the target (canonical form: references replaced by content, generated names ignored), a second compare of the dumped model must be empty, "+
 		"and 'device unchanged' is only accepted for an already equivalent device. Non-trivial = the tool reported a change; distinct = distinct input text. "+
-		"A command the model refuses under the five rules of C08 ends the run like a real approve would and counts as not converged. NSX: every 8th pair is run as a complete live approve (real list requests, paging and prefix filter of the tool) against the HTTPS simulator backed by the model.", n, typ, convRules[typ])
+		"A command the model refuses under the five rules of C08 ends the run like a real approve would and counts as not converged. NSX and PAN-OS: every 8th pair is run as a complete live approve (real list requests, paging and prefix filter of the tool) against the HTTPS simulator backed by the model.", n, typ, convRules[typ])
 	rep.Assumptions = []string{
 		"device semantics are those of the reference model written from the API/CLI documentation; every alarm is reproduced against the real code before it is classified",
 	}
@@ -86,9 +86,13 @@ func checkConv(id, typ, tier, replay string) int {
 		g := genPair(typ, seeds[i])
 		o := runConv(env, g, false)
 		live := ""
-		if typ == "nsx" && i%8 == 3 && replay == "" {
+		if (typ == "nsx" || typ == "panos") && i%8 == 3 && replay == "" {
 			// Same pair as a complete live session against the model.
-			o = runConvLiveNSX(env, g)
+			if typ == "nsx" {
+				o = runConvLiveNSX(env, g)
+			} else {
+				o = runConvLivePANOS(env, g)
+			}
 			live = "live:"
 			rep.Count("live_sessions", 1)
 		}
